@@ -90,6 +90,14 @@ func runSpec(o runOpts) (*RunResult, *Spec, error) {
 		fmt.Sscanf(v, "%d", &w.feasMs)
 	}
 	w.nativeDiv = os.Getenv("SYMX_NATIVE_DIV") == "1"
+	// completed paths whose witness model is replayed natively (translator validation)
+	w.witnesses = 8
+	if o.tier == "thorough" {
+		w.witnesses = 48
+	}
+	if v := os.Getenv("SYMX_WITNESSES"); v != "" {
+		fmt.Sscanf(v, "%d", &w.witnesses)
+	}
 	w.known = loadKnown(spec.Property)
 	var hs []*Harness
 	for _, h := range spec.Harnesses {
